@@ -8,7 +8,7 @@ the panic of every leveled operation.  The numeric data path is *not* modelled h
 what is recorded of it is which core entry point is reached with which shape parameters, so that
 the entry assertions of `poulpy-core/src/operations/glwe.rs` and every unchecked `usize`
 subtraction can be evaluated (`tensorCheck`, `squareCheck`, `plainCheck`, `constCheck`, `usub`).  The model follows the tree *with*
-the repairs of docs/fixes/ applied (01–07).
+the repairs of docs/fixes/ applied (01–08).
 
 Rust → Lean
 * `CKKSMeta`, `effective_k`, `min_k`                      → `Meta`, `Meta.effK`, `Meta.minK`
@@ -187,14 +187,14 @@ def addCtAssign (_env : Env) (dst a : Ct) : Res Ct :=
   | none => .panic .usizeSub
   | some _ => .ok { dst with md := ⟨min dst.md.logDelta a.md.logDelta, min dst.md.logBudget a.md.logBudget⟩ }
 
-/-- `glwe_lsh(dst, a, offset [+…])`, `dst.md = a.meta()`, `log_budget = checked_sub(a.log_budget, offset + extra)`:
-the common head of every unary `_into` operation.  On error the metadata has **already** been
-overwritten with `a.meta()`. -/
+/-- `log_budget = checked_sub(a.log_budget, offset + extra)?`, `glwe_lsh(dst, a, offset [+…])`,
+`dst.md = a.meta()` with that budget: the common head of every unary `_into` operation.  The budget
+is checked before the destination is touched (docs/fixes/08). -/
 def shiftInto (env : Env) (dst a : Ct) (extra : Nat) : Res Ct :=
   let off := offsetUnary env dst a
   if off + extra ≤ a.md.logBudget then
     .ok { dst with md := ⟨a.md.logDelta, a.md.logBudget - (off + extra)⟩ }
-  else .err (.insufficient a.md.logBudget (off + extra)) { dst with md := a.md }
+  else .err (.insufficient a.md.logBudget (off + extra)) dst
 
 /-- `CKKSPlaintextZnxDefault::ckks_{add,sub}_pt_vec_znx_into_default` (radix check, alignment, rsh-add) -/
 def ptAlign (env : Env) (dst : Ct) (pt : Pt) : Res Ct :=
@@ -641,5 +641,16 @@ def run (env : Env) : Pool → List Op → Res Pool
     match stepR env s op with
     | .ok s' => run env s' rest
     | r => r
+
+/-- the same program run by a caller that handles errors and goes on: an `Err` call is skipped and
+the state it leaves is kept (this is the loop `Drv.Ckks.runAll` / the harness execute, minus the
+printing); only a panic ends the run -/
+def runC (env : Env) : Pool → List Op → Res Pool
+  | s, [] => .ok s
+  | s, op :: rest =>
+    match stepR env s op with
+    | .ok s' => runC env s' rest
+    | .err _ s' => runC env s' rest
+    | .panic p => .panic p
 
 end Ckks
